@@ -90,7 +90,9 @@ where
 {
     fn expand_message(msg: &[u8], dst: &[u8], len_in_bytes: usize) -> Vec<u8> {
         let b_in_bytes = <HashT as Digest>::OutputSize::to_usize();
-        let ell = (len_in_bytes + b_in_bytes - 1) / b_in_bytes;
+        // ceil(len_in_bytes / b_in_bytes), computed without the addition that wraps around
+        // for lengths close to usize::MAX (and then let the limit check below pass)
+        let ell = len_in_bytes / b_in_bytes + if len_in_bytes % b_in_bytes == 0 { 0 } else { 1 };
         if ell > 255 {
             panic!("ell was too big in expand_message_xmd");
         }
